@@ -78,7 +78,7 @@ def gen_kinds(rng):
 
 
 def gen(rng, tier):
-    n = 12000 if tier == "quick" else 400000
+    n = 30000 if tier == "quick" else 400000
     for _ in range(n):
         v4 = rng.choice([0, 1, 8, 16, 23, 24, 24, 25, 31, 32, rng.randint(0, 32)])
         v6 = rng.choice([0, 1, 32, 48, 56, 56, 63, 64, rng.randint(0, 64)])
@@ -151,7 +151,7 @@ MANIFEST = {
                    "specification (same /len4 or /len6 network after IPv4-mapped canonicalisation, same category, NOERROR also same "
                    "QNAME-or-source-of-synthesis ignoring case) up to the 32-bit name hash; bit-level mask lemmas for every prefix length; "
                    "TCP/non-QUERY/suppressed responses leave the limiter untouched; under limit 1 the second response of a pair is "
-                   "limited iff same key, for every hash function incl. bucket collisions. Tied to the code by ~20k (quick) request "
+                   "limited iff same key, for every hash function incl. bucket collisions. Tied to the code by ~30k (quick) request "
                    "pairs through Server::handle_message, checked against the specification's same_stream."),
     "level_note": ("Trusted: Coq kernel, extraction, correspondence glue for the unmodelled query path. "
                    "The 32-bit name hash is an explicit weakening (a collision merges two NOERROR streams)."),
